@@ -85,6 +85,7 @@ def run(ast, fns, consts, macros, cf, ob, OBS):
     key_hygiene(fns, cf, ob)
     health_slot_table(fns, consts, macros, ob)
     raw_header_bytes(fns, cf, ob)
+    syn_restarts_tracking(fns, ob)
     OBS.append({"rule": "PARSER/raw-byte-reads", "construct": "instances", "pos": "-", "ok": OBS_N.get("raw", 0) >= 2, "detail": "raw header bytes read=%d floor=2" % OBS_N.get("raw", 0)})
     # ---------------------------------------------------------- 1. parsers
     fast, slow = fns.get("parse_transport_fast"), fns.get("parse_transport_slow")
@@ -543,3 +544,30 @@ def _ranges(s):
         out.append("%d-%d" % (s[i], s[j]) if j > i else "%d" % s[i])
         i = j + 1
     return ",".join(out)
+
+
+def syn_restarts_tracking(fns, ob):
+    """a pure SYN always starts a fresh TCP lifecycle: in __mark_tcp_seen the delete of an existing entry is
+    conditional on nothing but 'an entry exists' and 'new connection SYN'"""
+    f = fns.get("__mark_tcp_seen")
+    if f is None:
+        ob("STICKY", "new-syn-restarts-tracking", None, False, "__mark_tcp_seen not found: rule lost its anchor")
+        return
+    g = CFG(f)
+    params = {c.get("name") for c in inner(f) if c.get("kind") == "ParmVarDecl"}
+    dels = [n for n in find(g, lambda n: ncalls(n, "bpf_map_delete_elem"))]
+    ok_site, detail = False, ""
+    for d in dels:
+        ats = []
+        for cnode, pol in guards(g, d):
+            ats += atoms(cnode.ast, pol)
+        names = [(re.sub(r"\s+", "", a), p) for a, p in ats]
+        if any(a == "new_conn_syn" and p for a, p in names):
+            extra = [a for a, p in names if not ((a in ("new_conn_syn", "state") or a in params) and p)]
+            if not extra:
+                ok_site = True
+            else:
+                detail = "the delete at line %s is additionally conditional on %s" % (d.line, ", ".join(extra))
+    ob("STICKY", "new-syn-restarts-tracking", f.get("loc", {}).get("line"), ok_site,
+       "in __mark_tcp_seen an existing entry is dropped whenever a pure SYN arrives on its tuple (tracking restarts on a new SYN; the new connection must not inherit the old routing decision)%s"
+       % ("" if ok_site else " — VIOLATED: " + (detail or "no delete on the new-SYN edge")))
